@@ -127,7 +127,7 @@ type mutant struct {
 }
 
 var c14Kinds = []string{"none", "matrixWidth*2", "matrixHeight+1", "matrixWidth&Height*2", "matrixWidth&Height+1", "matrixWidth&Height-1", "tileWidth&Height/2", "tileWidth&Height*2", "cellSize*0.98", "matrix/2&tile*2", "matrix*2&tile/2", "tileWidth/2", "tileHeight/2", "origin.x+1", "origin.y-1e-6", "origin.x+ulp", "origin.x-ulp", "origin.y+ulp", "origin.y-ulp", "corner-flipped",
-	"cellSize*1.02", "cellSize*2", "cellSize/2", "id+100", "remove", "variableMatrixWidths"}
+	"cellSize*1.02", "cellSize*2", "cellSize/2", "id+100", "remove", "variableMatrixWidths", "ids-at-int64-wrap", "ids-from-MaxInt64-1"}
 
 func applyMutant(doc map[string]any, m mutant) map[string]any {
 	d := cloneDoc(doc)
@@ -196,6 +196,24 @@ func applyMutant(doc map[string]any, m mutant) map[string]any {
 	case "id+100":
 		id, _ := strconv.Atoi(tm["id"].(string))
 		tm["id"] = strconv.Itoa(id + 100)
+	case "ids-at-int64-wrap", "ids-from-MaxInt64-1":
+		// only the matrices from this index on, renumbered so that "the next id" overflows: ..., MaxInt64, MinInt64, ...
+		// (not consecutive from 0 by any reading)
+		rest := tms[m.Index:]
+		if len(rest) < 2 {
+			return nil
+		}
+		if len(rest) > 3 {
+			rest = rest[:3]
+		}
+		first := int64(math.MaxInt64)
+		if m.Kind == "ids-from-MaxInt64-1" {
+			first = math.MaxInt64 - 1
+		}
+		for i, e := range rest {
+			e.(map[string]any)["id"] = strconv.FormatInt(first+int64(i), 10) // wraps past MaxInt64
+		}
+		d["tileMatrices"] = append([]any{}, rest...)
 	case "remove":
 		d["tileMatrices"] = append(append([]any{}, tms[:m.Index]...), tms[m.Index+1:]...)
 	case "variableMatrixWidths":
@@ -230,7 +248,7 @@ func validateInProcess(docJSON []byte) (verdict string, detail string) {
 		}
 	}
 	if _, _, _, err := pointindex.DeviationStats(t, deepest); err != nil {
-		return "reject", "DeviationStats: " + err.Error()
+		return "reject", "passed IsQuadTree; DeviationStats: " + err.Error()
 	}
 	return "accept", ""
 }
